@@ -1,5 +1,545 @@
-From Coq Require Import List ZArith QArith Bool Reals Lra.
+(* Lemmas for C35.
+   Part A (R): a shift rule is exact on cos(w.)/sin(w.) at all points iff it satisfies the trigonometric
+               moment conditions; exactness then extends to every finite trigonometric polynomial; PennyLane's
+               antisymmetric rules; order 2 (iterated rules); period wrap; the two-term rule.
+   Part C (Q): the branch test of _get_shift_rule does not characterise {w,2w,..,Rw}; the repaired test does.
+   Part D (Q): process_shifts-style merging / dropping / sorting preserves sum_k c_k g(s_k). *)
+From Coq Require Import List ZArith QArith Qabs Bool Reals Lra Lia Permutation Morphisms.
 From PLV Require Import Num.ShiftRulesModel.
 Import ListNotations.
-Lemma branch_refuted_stub : equidistant_test (sortQ [1#1; 3#1]) = true /\ is_multiples (sortQ [1#1; 3#1]) = false.
-Proof. split; vm_compute; reflexivity. Qed.
+
+(* ================================================================== Part A *)
+Section PartA.
+Open Scope R_scope.
+
+Lemma rapply_cos : forall rl w x,
+  rapply rl (fun t => cos (w * t)) x = mom_cos rl w * cos (w * x) - mom_sin rl w * sin (w * x).
+Proof.
+  induction rl as [|[c s] t IH]; intros w x; cbn [rapply mom_cos mom_sin fst snd].
+  - ring.
+  - rewrite IH. replace (w * (x + s)) with (w * x + w * s) by ring. rewrite cos_plus. ring.
+Qed.
+
+Lemma rapply_sin : forall rl w x,
+  rapply rl (fun t => sin (w * t)) x = mom_cos rl w * sin (w * x) + mom_sin rl w * cos (w * x).
+Proof.
+  induction rl as [|[c s] t IH]; intros w x; cbn [rapply mom_cos mom_sin fst snd].
+  - ring.
+  - rewrite IH. replace (w * (x + s)) with (w * x + w * s) by ring. rewrite sin_plus. ring.
+Qed.
+
+(* (a) exactness on the two trigonometric monomials at ALL x  <->  moment conditions *)
+Lemma exact_iff_moments1 : forall rl w,
+  ((forall x, rapply rl (fun t => cos (w * t)) x = - w * sin (w * x)) /\
+   (forall x, rapply rl (fun t => sin (w * t)) x = w * cos (w * x)))
+  <-> moments1 rl w.
+Proof.
+  intros rl w; unfold moments1; split.
+  - intros [Hc Hs]. specialize (Hc 0). specialize (Hs 0).
+    rewrite rapply_cos in Hc. rewrite rapply_sin in Hs.
+    rewrite Rmult_0_r, cos_0, sin_0 in Hc, Hs. split; lra.
+  - intros [Hc Hs]; split; intro x.
+    + rewrite rapply_cos, Hc, Hs. ring.
+    + rewrite rapply_sin, Hc, Hs. ring.
+Qed.
+
+Lemma exact_iff_moments2 : forall rl w,
+  ((forall x, rapply rl (fun t => cos (w * t)) x = - (w * w) * cos (w * x)) /\
+   (forall x, rapply rl (fun t => sin (w * t)) x = - (w * w) * sin (w * x)))
+  <-> moments2 rl w.
+Proof.
+  intros rl w; unfold moments2; split.
+  - intros [Hc Hs]. specialize (Hc 0). specialize (Hs 0).
+    rewrite rapply_cos in Hc. rewrite rapply_sin in Hs.
+    rewrite Rmult_0_r, cos_0, sin_0 in Hc, Hs. split; lra.
+  - intros [Hc Hs]; split; intro x.
+    + rewrite rapply_cos, Hc, Hs. ring.
+    + rewrite rapply_sin, Hc, Hs. ring.
+Qed.
+
+(* ---- the right-hand sides really are the derivatives *)
+Lemma dlim_ext : forall f g x l l', (forall y, f y = g y) -> l = l' ->
+  derivable_pt_lim f x l -> derivable_pt_lim g x l'.
+Proof.
+  intros f g x l l' E El H eps He. subst l'. destruct (H eps He) as [d Hd]. exists d. intros h Hh Hlt.
+  rewrite <- !E. apply Hd; assumption.
+Qed.
+
+Lemma dlim_lin : forall w x, derivable_pt_lim (fun t => w * t) x w.
+Proof.
+  intros w x eps He. exists (mkposreal 1 Rlt_0_1). intros h Hh _.
+  replace ((w * (x + h) - w * x) / h - w) with 0 by (field; exact Hh).
+  rewrite Rabs_R0. exact He.
+Qed.
+
+Lemma dlim_cosw : forall w x, derivable_pt_lim (fun t => cos (w * t)) x (- w * sin (w * x)).
+Proof.
+  intros w x.
+  apply (dlim_ext (comp cos (fun t => w * t)) _ x (- sin (w * x) * w)); [reflexivity | ring |].
+  apply derivable_pt_lim_comp; [apply dlim_lin | apply derivable_pt_lim_cos].
+Qed.
+
+Lemma dlim_sinw : forall w x, derivable_pt_lim (fun t => sin (w * t)) x (w * cos (w * x)).
+Proof.
+  intros w x.
+  apply (dlim_ext (comp sin (fun t => w * t)) _ x (cos (w * x) * w)); [reflexivity | ring |].
+  apply derivable_pt_lim_comp; [apply dlim_lin | apply derivable_pt_lim_sin].
+Qed.
+
+Lemma dlim_term : forall w a b x,
+  derivable_pt_lim (fun t => a * cos (w * t) + b * sin (w * t)) x
+                   (- (a * w) * sin (w * x) + b * w * cos (w * x)).
+Proof.
+  intros w a b x.
+  apply (dlim_ext (plus_fct (mult_real_fct a (fun t => cos (w * t))) (mult_real_fct b (fun t => sin (w * t)))) _ x
+                  (a * (- w * sin (w * x)) + b * (w * cos (w * x)))); [reflexivity | ring |].
+  apply derivable_pt_lim_plus; apply derivable_pt_lim_scal; [apply dlim_cosw | apply dlim_sinw].
+Qed.
+
+Lemma dlim_term2 : forall w a b x,
+  derivable_pt_lim (fun t => - (a * w) * sin (w * t) + b * w * cos (w * t)) x
+                   (- (a * w * w) * cos (w * x) - b * w * w * sin (w * x)).
+Proof.
+  intros w a b x.
+  apply (dlim_ext (plus_fct (mult_real_fct (- (a * w)) (fun t => sin (w * t)))
+                            (mult_real_fct (b * w) (fun t => cos (w * t)))) _ x
+                  (- (a * w) * (w * cos (w * x)) + b * w * (- w * sin (w * x)))); [reflexivity | ring |].
+  apply derivable_pt_lim_plus; apply derivable_pt_lim_scal; [apply dlim_sinw | apply dlim_cosw].
+Qed.
+
+Lemma tsum_deriv : forall ts x, derivable_pt_lim (tsum ts) x (tderiv ts x).
+Proof.
+  induction ts as [|t r IH]; intro x.
+  - apply (dlim_ext (fct_cte 0) _ x 0); [reflexivity | reflexivity | apply derivable_pt_lim_const].
+  - apply (dlim_ext (plus_fct (fun y => ta t * cos (tw t * y) + tb t * sin (tw t * y)) (tsum r)) _ x
+                    ((- (ta t * tw t) * sin (tw t * x) + tb t * tw t * cos (tw t * x)) + tderiv r x));
+      [reflexivity | reflexivity |].
+    apply derivable_pt_lim_plus; [apply dlim_term | apply IH].
+Qed.
+
+Lemma tpoly_deriv : forall a0 ts x, derivable_pt_lim (tpoly a0 ts) x (tderiv ts x).
+Proof.
+  intros a0 ts x.
+  apply (dlim_ext (plus_fct (fct_cte a0) (tsum ts)) _ x (0 + tderiv ts x)); [reflexivity | ring |].
+  apply derivable_pt_lim_plus; [apply derivable_pt_lim_const | apply tsum_deriv].
+Qed.
+
+Lemma tderiv_deriv : forall ts x, derivable_pt_lim (tderiv ts) x (tderiv2 ts x).
+Proof.
+  induction ts as [|t r IH]; intro x.
+  - apply (dlim_ext (fct_cte 0) _ x 0); [reflexivity | reflexivity | apply derivable_pt_lim_const].
+  - apply (dlim_ext (plus_fct (fun y => - (ta t * tw t) * sin (tw t * y) + tb t * tw t * cos (tw t * y)) (tderiv r)) _ x
+                    ((- (ta t * tw t * tw t) * cos (tw t * x) - tb t * tw t * tw t * sin (tw t * x)) + tderiv2 r x));
+      [reflexivity | reflexivity |].
+    apply derivable_pt_lim_plus; [apply dlim_term2 | apply IH].
+Qed.
+
+(* ---- linearity of the rule *)
+Lemma rapply_ext : forall rl f g x, (forall y, f y = g y) -> rapply rl f x = rapply rl g x.
+Proof. induction rl as [|[c s] t IH]; intros; cbn [rapply]; [reflexivity | rewrite H, (IH f g x H); reflexivity]. Qed.
+
+Lemma rapply_plus : forall rl f g x, rapply rl (fun y => f y + g y) x = rapply rl f x + rapply rl g x.
+Proof. induction rl as [|[c s] t IH]; intros; cbn [rapply]; [ring | rewrite IH; ring]. Qed.
+
+Lemma rapply_lin : forall rl f g a b x,
+  rapply rl (fun y => a * f y + b * g y) x = a * rapply rl f x + b * rapply rl g x.
+Proof. induction rl as [|[c s] t IH]; intros; cbn [rapply]; [ring | rewrite IH; ring]. Qed.
+
+Lemma rapply_const : forall rl a x, rapply rl (fun _ => a) x = a * mom0 rl.
+Proof. induction rl as [|[c s] t IH]; intros; cbn [rapply mom0 fst]; [ring | rewrite IH; ring]. Qed.
+
+(* the linear-combination lemma, by induction over the term list *)
+Lemma rapply_tsum1 : forall rl ts, Forall (fun t => moments1 rl (tw t)) ts ->
+  forall x, rapply rl (tsum ts) x = tderiv ts x.
+Proof.
+  intros rl ts H; induction H as [|t r [Hc Hs] Hr IH]; intro x.
+  - cbn [tderiv]. rewrite (rapply_ext rl (tsum []) (fun _ => 0) x) by reflexivity.
+    rewrite rapply_const. ring.
+  - cbn [tderiv].
+    rewrite (rapply_ext rl (tsum (t :: r))
+              (fun y => (ta t * cos (tw t * y) + tb t * sin (tw t * y)) + tsum r y) x) by reflexivity.
+    rewrite (rapply_plus rl (fun y => ta t * cos (tw t * y) + tb t * sin (tw t * y)) (tsum r)).
+    rewrite (rapply_lin rl (fun y => cos (tw t * y)) (fun y => sin (tw t * y))).
+    rewrite rapply_cos, rapply_sin, Hc, Hs, IH. ring.
+Qed.
+
+Lemma rapply_tsum2 : forall rl ts, Forall (fun t => moments2 rl (tw t)) ts ->
+  forall x, rapply rl (tsum ts) x = tderiv2 ts x.
+Proof.
+  intros rl ts H; induction H as [|t r [Hc Hs] Hr IH]; intro x.
+  - cbn [tderiv2]. rewrite (rapply_ext rl (tsum []) (fun _ => 0) x) by reflexivity.
+    rewrite rapply_const. ring.
+  - cbn [tderiv2].
+    rewrite (rapply_ext rl (tsum (t :: r))
+              (fun y => (ta t * cos (tw t * y) + tb t * sin (tw t * y)) + tsum r y) x) by reflexivity.
+    rewrite (rapply_plus rl (fun y => ta t * cos (tw t * y) + tb t * sin (tw t * y)) (tsum r)).
+    rewrite (rapply_lin rl (fun y => cos (tw t * y)) (fun y => sin (tw t * y))).
+    rewrite rapply_cos, rapply_sin, Hc, Hs, IH. ring.
+Qed.
+
+Lemma rapply_tpoly : forall rl a0 ts x, rapply rl (tpoly a0 ts) x = a0 * mom0 rl + rapply rl (tsum ts) x.
+Proof.
+  intros. rewrite (rapply_ext rl (tpoly a0 ts) (fun y => (fun _ => a0) y + tsum ts y) x) by reflexivity.
+  rewrite (rapply_plus rl (fun _ => a0) (tsum ts)), rapply_const. reflexivity.
+Qed.
+
+(* what is needed for the constant term: a0 * (sum of coefficients) = 0 *)
+Lemma rule_exact_trig_poly1 : forall rl a0 ts,
+  a0 * mom0 rl = 0 -> Forall (fun t => moments1 rl (tw t)) ts ->
+  forall x, rapply rl (tpoly a0 ts) x = tderiv ts x /\
+            derivable_pt_lim (tpoly a0 ts) x (rapply rl (tpoly a0 ts) x).
+Proof.
+  intros rl a0 ts H0 H x.
+  assert (E : rapply rl (tpoly a0 ts) x = tderiv ts x).
+  { rewrite rapply_tpoly, H0, (rapply_tsum1 rl ts H). ring. }
+  split; [exact E | rewrite E; apply tpoly_deriv].
+Qed.
+
+Lemma rule_exact_trig_poly2 : forall rl a0 ts,
+  a0 * mom0 rl = 0 -> Forall (fun t => moments2 rl (tw t)) ts ->
+  forall x, rapply rl (tpoly a0 ts) x = tderiv2 ts x /\
+            derivable_pt_lim (tpoly a0 ts) x (tderiv ts x) /\
+            derivable_pt_lim (tderiv ts) x (rapply rl (tpoly a0 ts) x).
+Proof.
+  intros rl a0 ts H0 H x.
+  assert (E : rapply rl (tpoly a0 ts) x = tderiv2 ts x).
+  { rewrite rapply_tpoly, H0, (rapply_tsum2 rl ts H). ring. }
+  split; [exact E | split; [apply tpoly_deriv | rewrite E; apply tderiv_deriv]].
+Qed.
+
+(* the constant-term condition is also necessary: apply the rule to the constant function *)
+Lemma const_term_needs_mom0 : forall rl a0 x, rapply rl (tpoly a0 []) x = a0 * mom0 rl.
+Proof. intros. rewrite rapply_tpoly. rewrite (rapply_ext rl (tsum []) (fun _ => 0) x) by reflexivity.
+  rewrite rapply_const. ring. Qed.
+
+(* ---- PennyLane's first-order rules come in +/- pairs *)
+Lemma mom0_app : forall a b, mom0 (a ++ b) = mom0 a + mom0 b.
+Proof. induction a as [|[c s] t IH]; intros; cbn [app mom0 fst]; [ring | rewrite IH; ring]. Qed.
+Lemma mom_cos_app : forall a b w, mom_cos (a ++ b) w = mom_cos a w + mom_cos b w.
+Proof. induction a as [|[c s] t IH]; intros; cbn [app mom_cos fst snd]; [ring | rewrite IH; ring]. Qed.
+Lemma mom_sin_app : forall a b w, mom_sin (a ++ b) w = mom_sin a w + mom_sin b w.
+Proof. induction a as [|[c s] t IH]; intros; cbn [app mom_sin fst snd]; [ring | rewrite IH; ring]. Qed.
+
+Lemma mom_neg : forall h w,
+  mom0 (map (fun cs => (- fst cs, - snd cs)) h) = - mom0 h /\
+  mom_cos (map (fun cs => (- fst cs, - snd cs)) h) w = - mom_cos h w /\
+  mom_sin (map (fun cs => (- fst cs, - snd cs)) h) w = mom_sin h w.
+Proof.
+  induction h as [|[c s] t IH]; intro w; cbn [map mom0 mom_cos mom_sin fst snd].
+  - repeat split; ring.
+  - destruct (IH w) as [H0 [Hc Hs]]. rewrite H0, Hc, Hs.
+    replace (w * - s) with (- (w * s)) by ring. rewrite cos_neg, sin_neg. repeat split; ring.
+Qed.
+
+Lemma antisym_moments : forall h w,
+  mom0 (antisym h) = 0 /\ mom_cos (antisym h) w = 0 /\ mom_sin (antisym h) w = 2 * mom_sin h w.
+Proof.
+  intros h w. unfold antisym. rewrite mom0_app, mom_cos_app, mom_sin_app.
+  destruct (mom_neg h w) as [H0 [Hc Hs]]. rewrite H0, Hc, Hs. repeat split; ring.
+Qed.
+
+Lemma antisym_exact_iff : forall h w, moments1 (antisym h) w <-> 2 * mom_sin h w = w.
+Proof.
+  intros h w. unfold moments1. destruct (antisym_moments h w) as [_ [Hc Hs]]. rewrite Hc, Hs.
+  split; [intros [_ H]; exact H | intro H; split; [reflexivity | exact H]].
+Qed.
+
+Lemma antisym_rule_exact : forall h a0 ts,
+  Forall (fun t => 2 * mom_sin h (tw t) = tw t) ts ->
+  forall x, derivable_pt_lim (tpoly a0 ts) x (rapply (antisym h) (tpoly a0 ts) x).
+Proof.
+  intros h a0 ts H x. apply rule_exact_trig_poly1.
+  - destruct (antisym_moments h 0) as [H0 _]. rewrite H0. ring.
+  - eapply Forall_impl; [|exact H]. intros t Ht. apply antisym_exact_iff. exact Ht.
+Qed.
+
+(* (b) the two-term rule: coefficients +-w/2 at shifts +-pi/(2w); w = 1 gives +-1/2 at +-pi/2 *)
+Lemma two_term_moments : forall w, w <> 0 -> moments1 (two_term w) w.
+Proof.
+  intros w Hw. unfold two_term. apply antisym_exact_iff. cbn [mom_sin fst snd].
+  replace (w * (PI / (2 * w))) with (PI / 2) by (field; exact Hw). rewrite sin_PI2. field.
+Qed.
+
+Lemma two_term_one : two_term 1 = [(1 / 2, PI / (2 * 1)); (- (1 / 2), - (PI / (2 * 1)))].
+Proof. reflexivity. Qed.
+
+(* ---- order 2: _iterate_shift_rule multiplies coefficients and adds shifts *)
+Lemma mom_scale_shift : forall r2 c s w,
+  mom0 (map (fun b => (c * fst b, s + snd b)) r2) = c * mom0 r2 /\
+  mom_cos (map (fun b => (c * fst b, s + snd b)) r2) w =
+    c * (cos (w * s) * mom_cos r2 w - sin (w * s) * mom_sin r2 w) /\
+  mom_sin (map (fun b => (c * fst b, s + snd b)) r2) w =
+    c * (sin (w * s) * mom_cos r2 w + cos (w * s) * mom_sin r2 w).
+Proof.
+  induction r2 as [|[c2 s2] t IH]; intros c s w; cbn [map mom0 mom_cos mom_sin fst snd].
+  - repeat split; ring.
+  - destruct (IH c s w) as [H0 [Hc Hs]]. rewrite H0, Hc, Hs.
+    replace (w * (s + s2)) with (w * s + w * s2) by ring. rewrite cos_plus, sin_plus. repeat split; ring.
+Qed.
+
+Lemma iterate2_moments : forall r1 r2 w,
+  mom0 (iterate2 r1 r2) = mom0 r1 * mom0 r2 /\
+  mom_cos (iterate2 r1 r2) w = mom_cos r1 w * mom_cos r2 w - mom_sin r1 w * mom_sin r2 w /\
+  mom_sin (iterate2 r1 r2) w = mom_sin r1 w * mom_cos r2 w + mom_cos r1 w * mom_sin r2 w.
+Proof.
+  induction r1 as [|[c s] t IH]; intros r2 w; unfold iterate2; cbn [flat_map mom0 mom_cos mom_sin fst snd].
+  - repeat split; ring.
+  - fold (iterate2 t r2). rewrite mom0_app, mom_cos_app, mom_sin_app.
+    destruct (IH r2 w) as [H0 [Hc Hs]]. destruct (mom_scale_shift r2 c s w) as [G0 [Gc Gs]].
+    rewrite H0, Hc, Hs, G0, Gc, Gs. repeat split; ring.
+Qed.
+
+Lemma iterate2_exact : forall r1 r2 w, moments1 r1 w -> moments1 r2 w -> moments2 (iterate2 r1 r2) w.
+Proof.
+  intros r1 r2 w [A1 B1] [A2 B2]. unfold moments2. destruct (iterate2_moments r1 r2 w) as [_ [Hc Hs]].
+  rewrite Hc, Hs, A1, B1, A2, B2. split; ring.
+Qed.
+
+Lemma iterate2_mom0 : forall r1 r2, mom0 r1 = 0 -> mom0 (iterate2 r1 r2) = 0.
+Proof. intros r1 r2 H. destruct (iterate2_moments r1 r2 0) as [H0 _]. rewrite H0, H. ring. Qed.
+
+(* ---- period wrap: moving a shift by a multiple of a true period changes no moment *)
+Lemma cos_sin_2PI_nat : forall n : nat, cos (2 * INR n * PI) = 1 /\ sin (2 * INR n * PI) = 0.
+Proof.
+  intro n. replace (2 * INR n * PI) with (0 + 2 * INR n * PI) by ring.
+  rewrite cos_period, sin_period, cos_0, sin_0. split; reflexivity.
+Qed.
+
+Lemma cos_sin_2PI_Z : forall m : Z, cos (2 * PI * IZR m) = 1 /\ sin (2 * PI * IZR m) = 0.
+Proof.
+  intro m. destruct (Z_le_gt_dec 0 m) as [H|H].
+  - rewrite <- (Z2Nat.id m H), <- INR_IZR_INZ.
+    replace (2 * PI * INR (Z.to_nat m)) with (2 * INR (Z.to_nat m) * PI) by ring. apply cos_sin_2PI_nat.
+  - assert (Hm : (0 <= - m)%Z) by lia.
+    replace (IZR m) with (- IZR (- m)) by (rewrite opp_IZR; ring).
+    rewrite <- (Z2Nat.id (- m) Hm), <- INR_IZR_INZ.
+    replace (2 * PI * - INR (Z.to_nat (- m))) with (- (2 * INR (Z.to_nat (- m)) * PI)) by ring.
+    rewrite cos_neg, sin_neg. destruct (cos_sin_2PI_nat (Z.to_nat (- m))) as [Hc Hs]. rewrite Hc, Hs.
+    split; ring.
+Qed.
+
+Lemma wrap_shift_sound : forall w T s (m k : Z), w * T = 2 * PI * IZR m ->
+  cos (w * (s + IZR k * T)) = cos (w * s) /\ sin (w * (s + IZR k * T)) = sin (w * s).
+Proof.
+  intros w T s m k H.
+  replace (w * (s + IZR k * T)) with (w * s + 2 * PI * IZR (k * m))
+    by (rewrite mult_IZR; replace (w * (s + IZR k * T)) with (w * s + IZR k * (w * T)) by ring; rewrite H; ring).
+  rewrite cos_plus, sin_plus. destruct (cos_sin_2PI_Z (k * m)) as [Hc Hs]. rewrite Hc, Hs. split; ring.
+Qed.
+
+End PartA.
+
+(* ================================================================== Part C *)
+Open Scope Q_scope.
+
+Lemma branch_refuted_13 :
+  let fs := [1 # 1; 3 # 1] in
+  equidistant_test (sortQ fs) = true /\ is_multiples (sortQ fs) = false /\
+  generate_branch fs None = (if REPAIRED_BRANCH_TEST then BSolve else BEqui).
+Proof. vm_compute. repeat split; reflexivity. Qed.
+
+Lemma mult_from_chain : forall r p k w d,
+  p == inject_Z k * w -> d == w -> forallb (Qeq_bool d) (diffs_from p r) = true ->
+  mult_from w (k + 1) r = true.
+Proof.
+  induction r as [|y t IH]; intros p k w d Hp Hd H; cbn [mult_from diffs_from forallb] in *.
+  - reflexivity.
+  - apply andb_true_iff in H. destruct H as [H1 H2]. apply Qeq_bool_iff in H1.
+    assert (Hy : y == inject_Z (k + 1) * w).
+    { rewrite inject_Z_plus. setoid_replace y with (p + d) by (rewrite H1; ring). rewrite Hp, Hd. ring. }
+    apply andb_true_iff. split.
+    + apply Qeq_bool_iff. exact Hy.
+    + apply (IH y (k + 1)%Z w d Hy Hd H2).
+Qed.
+
+Lemma repaired_test_sound_exact : forall l,
+  equally_spaced_exact l = true -> min_is_spacing_exact l = true -> is_multiples l = true.
+Proof.
+  intros [|x [|y r]] H1 H2; cbn [is_multiples mult_from].
+  - reflexivity.
+  - apply andb_true_iff; split; [apply Qeq_bool_iff; ring | reflexivity].
+  - cbn [equally_spaced_exact diffs diffs_from] in H1. cbn [min_is_spacing_exact] in H2.
+    apply Qeq_bool_iff in H2.
+    apply andb_true_iff; split; [apply Qeq_bool_iff; ring |].
+    change (mult_from x (1 + 1) (y :: r) = true).
+    apply (mult_from_chain (y :: r) x 1%Z x (y - x)); [ring | exact H2 |].
+    cbn [diffs_from forallb]. apply andb_true_iff; split; [apply Qeq_bool_iff; reflexivity | exact H1].
+Qed.
+
+(* ================================================================== Part D *)
+Section PartD.
+Variable g : Q -> Q.
+
+Lemma qsum_app : forall a b, qsum g (a ++ b) == qsum g a + qsum g b.
+Proof. induction a as [|[c s] t IH]; intro b; cbn [app qsum fst snd]; [ring | rewrite IH; ring]. Qed.
+
+Lemma qsum_perm : forall a b, Permutation a b -> qsum g a == qsum g b.
+Proof.
+  induction 1 as [| x a b _ IH | x y a | a b c _ IH1 _ IH2]; cbn [qsum].
+  - reflexivity.
+  - rewrite IH. reflexivity.
+  - ring.
+  - rewrite IH1. exact IH2.
+Qed.
+
+(* ---- sorting *)
+Lemma insertS_perm : forall x l, Permutation (insertS x l) (x :: l).
+Proof.
+  induction l as [|y r IH]; cbn [insertS].
+  - apply Permutation_refl.
+  - destruct (shift_le (snd x) (snd y)); [apply Permutation_refl |].
+    eapply Permutation_trans; [apply perm_skip, IH | apply perm_swap].
+Qed.
+
+Lemma sort_rule_perm : forall r, Permutation (sort_rule r) r.
+Proof.
+  induction r as [|x r IH]; cbn [sort_rule fold_right].
+  - apply Permutation_refl.
+  - eapply Permutation_trans; [apply insertS_perm | apply perm_skip, IH].
+Qed.
+
+Lemma sort_preserves_sum : forall r, qsum g (sort_rule r) == qsum g r.
+Proof. intro r. apply qsum_perm, sort_rule_perm. Qed.
+
+(* ---- dropping zero coefficients *)
+Lemma drop_zero_preserves_sum : forall r, qsum g (drop_zero r) == qsum g r.
+Proof.
+  induction r as [|[c s] t IH]; cbn [drop_zero filter qsum fst snd].
+  - reflexivity.
+  - fold (drop_zero t). destruct (Qeq_bool c 0) eqn:E; cbn [negb qsum fst snd].
+    + apply Qeq_bool_iff in E. rewrite IH, E. ring.
+    + rewrite IH. reflexivity.
+Qed.
+
+(* ---- merging *)
+Definition hit (ks : list Z) (cs : Q * Q) : Q :=
+  qsum g (map (fun k => ((if (round_key (snd cs) =? k)%Z then fst cs else 0), key_val k)) ks).
+Definition merged_on (ks : list Z) (r : qrule) : Q :=
+  qsum g (map (fun k => (coeff_for k r, key_val k)) ks).
+
+Lemma merged_on_nil : forall ks, merged_on ks [] == 0.
+Proof. induction ks as [|k ks IH]; unfold merged_on in *; cbn [map qsum coeff_for fst snd]; [reflexivity | rewrite IH; ring]. Qed.
+
+Lemma merged_on_cons : forall ks cs t, merged_on ks (cs :: t) == hit ks cs + merged_on ks t.
+Proof.
+  induction ks as [|k ks IH]; intros cs t; unfold merged_on, hit in *; cbn [map qsum fst snd].
+  - ring.
+  - rewrite IH. cbn [coeff_for]. destruct (round_key (snd cs) =? k)%Z; ring.
+Qed.
+
+Lemma hit_absent : forall ks cs, ~ In (round_key (snd cs)) ks -> hit ks cs == 0.
+Proof.
+  induction ks as [|k ks IH]; intros cs H; unfold hit in *; cbn [map qsum fst snd].
+  - reflexivity.
+  - destruct (Z.eqb_spec (round_key (snd cs)) k) as [E|E].
+    + exfalso. apply H. left. symmetry; exact E.
+    + rewrite IH; [ring | intro HI; apply H; right; exact HI].
+Qed.
+
+Lemma hit_present : forall ks cs, NoDup ks -> In (round_key (snd cs)) ks ->
+  hit ks cs == fst cs * g (key_val (round_key (snd cs))).
+Proof.
+  induction ks as [|k ks IH]; intros cs Hn Hi.
+  - destruct Hi.
+  - inversion Hn as [|k' ks' Hnk Hn']; subst.
+    change (hit (k :: ks) cs) with
+      ((if (round_key (snd cs) =? k)%Z then fst cs else 0) * g (key_val k) + hit ks cs).
+    destruct (Z.eqb_spec (round_key (snd cs)) k) as [E|E].
+    + rewrite hit_absent by (rewrite E; exact Hnk). rewrite E. ring.
+    + destruct Hi as [Hi|Hi]; [exfalso; apply E; symmetry; exact Hi |].
+      rewrite (IH cs Hn' Hi). ring.
+Qed.
+
+Lemma merged_on_spec : forall ks r, NoDup ks -> (forall cs, In cs r -> In (round_key (snd cs)) ks) ->
+  merged_on ks r == qsum g (rounded r).
+Proof.
+  intros ks r Hn; induction r as [|cs t IH]; intro Hin.
+  - apply merged_on_nil.
+  - rewrite merged_on_cons, hit_present by (auto; apply Hin; left; reflexivity).
+    rewrite IH by (intros c Hc; apply Hin; right; exact Hc).
+    cbn [rounded map qsum fst snd]. reflexivity.
+Qed.
+
+Lemma existsb_eqb_In : forall x l, existsb (Z.eqb x) l = true <-> In x l.
+Proof.
+  intros x l. rewrite existsb_exists. split.
+  - intros [y [Hy E]]. apply Z.eqb_eq in E. subst. exact Hy.
+  - intro H. exists x. split; [exact H | apply Z.eqb_refl].
+Qed.
+
+Lemma dedupZ_In : forall l x, In x (dedupZ l) <-> In x l.
+Proof.
+  induction l as [|y r IH]; intro x; cbn [dedupZ].
+  - reflexivity.
+  - destruct (existsb (Z.eqb y) r) eqn:E.
+    + rewrite IH. split; [intro H; right; exact H |]. intros [H|H]; [subst; apply existsb_eqb_In; exact E | exact H].
+    + cbn [In]. rewrite IH. reflexivity.
+Qed.
+
+Lemma dedupZ_NoDup : forall l, NoDup (dedupZ l).
+Proof.
+  induction l as [|y r IH]; cbn [dedupZ].
+  - constructor.
+  - destruct (existsb (Z.eqb y) r) eqn:E; [exact IH |].
+    constructor; [| exact IH]. rewrite dedupZ_In. intro H. apply existsb_eqb_In in H. congruence.
+Qed.
+
+Lemma insertZ_perm : forall x l, Permutation (insertZ x l) (x :: l).
+Proof.
+  induction l as [|y r IH]; cbn [insertZ].
+  - apply Permutation_refl.
+  - destruct (x <=? y)%Z; [apply Permutation_refl |].
+    eapply Permutation_trans; [apply perm_skip, IH | apply perm_swap].
+Qed.
+
+Lemma sortZ_perm : forall l, Permutation (sortZ l) l.
+Proof.
+  induction l as [|x r IH]; cbn [sortZ fold_right].
+  - apply Permutation_refl.
+  - eapply Permutation_trans; [apply insertZ_perm | apply perm_skip, IH].
+Qed.
+
+Lemma unique_keys_ok : forall r,
+  NoDup (unique_keys r) /\ (forall cs, In cs r -> In (round_key (snd cs)) (unique_keys r)).
+Proof.
+  intro r. unfold unique_keys. split.
+  - eapply Permutation_NoDup; [apply Permutation_sym, sortZ_perm | apply dedupZ_NoDup].
+  - intros cs H. eapply Permutation_in; [apply Permutation_sym, sortZ_perm |].
+    apply dedupZ_In. apply (in_map (fun cs => round_key (snd cs))). exact H.
+Qed.
+
+(* merging rows whose shifts agree after rounding to 10 decimals: the sum with the ROUNDED shifts is preserved *)
+Lemma merge_always_sum : forall r, qsum g (merge_always r) == qsum g (rounded r).
+Proof.
+  intro r. destruct (unique_keys_ok r) as [Hn Hi].
+  change (qsum g (merge_always r)) with (merged_on (unique_keys r) r). apply merged_on_spec; assumption.
+Qed.
+
+Hypothesis g_proper : Proper (Qeq ==> Qeq) g.
+
+Lemma rounded_on_grid : forall r, on_grid r -> qsum g (rounded r) == qsum g r.
+Proof.
+  induction r as [|cs t IH]; intro H; cbn [rounded map qsum fst snd].
+  - reflexivity.
+  - fold (rounded t). rewrite IH by (intros c Hc; apply H; right; exact Hc).
+    rewrite (g_proper _ _ (H cs (or_introl eq_refl))). reflexivity.
+Qed.
+
+(* merging equal shifts (shifts on the 1e-10 grid, so rounding is the identity) preserves the sum *)
+Lemma merge_preserves_sum : forall r, on_grid r -> qsum g (merge r) == qsum g r.
+Proof.
+  intros r H. unfold merge. destruct (length r =? length (unique_keys r))%nat; [reflexivity |].
+  rewrite merge_always_sum. apply rounded_on_grid. exact H.
+Qed.
+
+Lemma drop_zero_on_grid : forall r, on_grid r -> on_grid (drop_zero r).
+Proof. intros r H cs Hc. apply H. unfold drop_zero in Hc. apply filter_In in Hc. tauto. Qed.
+
+Lemma process_core_preserves_sum : forall r, on_grid r -> qsum g (process_core r) == qsum g r.
+Proof.
+  intros r H. unfold process_core.
+  rewrite sort_preserves_sum, merge_preserves_sum by (apply drop_zero_on_grid; exact H).
+  apply drop_zero_preserves_sum.
+Qed.
+
+End PartD.
